@@ -5,8 +5,9 @@ import numpy as np
 
 import sysgen
 from c09 import _signal
+from common import Cmat, Cx, R, cfl, fl, max_rel_err
 
-LEAN_MODULES = ["PyomaVerif.Props.C08", "PyomaVerif.Props.C08Pipe"]
+LEAN_MODULES = ["PyomaVerif.Props.C08", "PyomaVerif.Props.C08Pipe", "PyomaVerif.Props.C08Unity", "PyomaVerif.Props.C08Ms", "PyomaVerif.Props.C08Perm"]
 THEOREMS = [
     "PV.C08.C08_gain_hank_mm",
     "PV.C08.C08_gain_hank_R",
@@ -57,6 +58,31 @@ THEOREMS = [
     "PV.C08.C08_time_unit_efdd_per",
     "PV.C08.C08_time_unit_efdd_cor",
     "PV.C08.C08_time_unit_efdd_fn",
+    # unity of the three normalisers, reported shape under mixing (Props/C08Unity.lean)
+    "PV.C08.C08_unity_ssi",
+    "PV.C08.C08_unity_shapes",
+    "PV.C08.C08_unity_plscf",
+    "PV.C08.C08_unity_plscf_column",
+    "PV.C08.C08_unity_fdd",
+    "PV.C08.C08_unity_fdd_mpe",
+    "PV.C08.C08_mix_shapes",
+    "PV.C08.C08_time_unit_lamC",
+    "PV.C08.C08_time_unit_ac2mp",
+    # multi-setup pipelines under gains (Props/C08Ms.lean)
+    "PV.C08.msObsAll_smul",
+    "PV.C08.C08_ms_gain_ssi",
+    "PV.C08.C08_ms_gain_ssi_dat",
+    "PV.C08.C08_ms_gain_preger",
+    "PV.C08.C08_ms_gain_sd",
+    "PV.C08.C08_ms_gain_fdd_ms",
+    "PV.C08.OrderCert.congr",
+    "PV.C08.C08_gain_plscf_range",
+    "PV.C08.C08_ms_gain_plscf_ms",
+    "PV.C08.C08_ms_gain_efdd_ms",
+    # FDD under a channel permutation, composed to the result of FDD_mpe (Props/C08Perm.lean)
+    "PV.C08.fddOne_perm",
+    "PV.C08.C08_perm_fdd_mpe",
+    "PV.C08.C08_perm_fdd_data",
 ]
 RULE = (
     "metamorphic oracle on the real code: every algorithm class (FDD, EFDD, FSDD, SSIcov[cov_mm, cov_R], SSIdat, pLSCF[per, cor] and "
@@ -64,7 +90,10 @@ RULE = (
     "(gain in [1e-6, 1e6] incl. powers of two, channel permutation with reference indices mapped, orthogonal mixing, time "
     "unit k in [0.01, 100]); whole pole tables are compared (poles matched per order column within 1e-6, shapes by MAC), "
     "extracted modes for the FDD family; every reported shape must have its largest-magnitude component equal to 1. "
-    "distinct = (class, transformation kind, method)"
+    "distinct = (class, transformation kind, method); correspondence: ssi.ac2mp at dt and dt/k against the model ac2mpSsi "
+    "(the log(lam_d)*(1/dt) step inside the model, scipy's eig recorded; fn, xi, lam, phi to 1e-12) and the two model outputs "
+    "related as C08_time_unit_ac2mp says; the unity normalisers of ssi.ac2mp, plscf.ac2mp_poly, fdd.FDD_mpe against "
+    "normalise / phiCell / Fdd.normalise (index picked identical incl. exact ties, values to 1e-12, NaN pattern for zero vectors)"
 )
 EXTRA_TRUSTED = [
     "that LAPACK/FFT return a valid factorisation for the transformed input too (the theorems quantify over all valid factorisations)",
@@ -534,22 +563,186 @@ def oracle(ctx, scale):
             ctx.sample({"classes": SINGLE + MULTI, "example_params": {k: v for k, v in p.items()}})
 
 
+def _corr_ac2mp_model(ctx, ssi, A, C, dt, tag, key):
+    """ssi.ac2mp(A, C, dt) against the model `ac2mpSsi` (Model/C08.lean: the `log(lam_d) * (1/dt)` step, `xiOf`, `fnOf`,
+    `shapesOf`), scipy's eig recorded and handed to the model.  Returns the model output (or None)."""
+    import scipy.linalg
+
+    from c01 import record
+
+    eigs = []
+    with record(scipy.linalg, "eig", eigs):
+        fn, xi, phi, lam_c, *_ = ssi.ac2mp(A, C, dt)
+    if len(eigs) != 1:
+        ctx.corr(tag, False, {"note": "eig call count", "n": len(eigs)}, None, None, None)
+        return None
+    lam_d, _lv, rv = eigs[0][1]
+    loglam = np.log(lam_d)
+    lamc = loglam * (1 / dt)
+    if not (np.all(np.isfinite(lamc)) and np.all(np.abs(lamc) > 0)):
+        ctx.skipped += 1
+        return None
+    raw = np.dot(C, rv)
+    a = np.sort(np.abs(raw), axis=0)
+    if raw.shape[0] > 1 and np.any(a[-1] - a[-2] <= 1e-9 * a[-1]):
+        ctx.count("ac2mp_near_tie_skipped")  # the first-index rule is exercised by the exact-tie stream below
+        return None
+    mm = ctx.model("c08_ac2mp", C=Cmat(C), V=Cmat(rv), loglam=[Cx(z) for z in loglam], invdt=R(1 / dt),
+                   abs=[R(v) for v in np.abs(lamc)], twopi=R(2 * np.pi))
+    ok = max_rel_err([fl(v) for v in mm["fn"]], fn) <= 1e-12 and max_rel_err([fl(v) for v in mm["xi"]], xi) <= 1e-12
+    ok = ok and max_rel_err([cfl(z) for z in mm["lam"]], lam_c) <= 1e-12
+    PH = np.array([[cfl(z) for z in row] for row in mm["phi"]])
+    ok = ok and PH.shape == np.asarray(phi).shape
+    if ok:
+        for j in range(raw.shape[1]):
+            cancel = (np.abs(C) @ np.abs(rv[:, j])).max() / max(np.abs(raw[:, j]).max(), 1e-300)
+            ok = ok and max_rel_err(PH[j], np.asarray(phi)[j]) <= 1e-12 + 4e-16 * cancel * raw.shape[0]
+    ctx.corr(tag, bool(ok), {"A": A.tolist(), "C": C.tolist(), "dt": dt}, None, None, key)
+    return mm
+
+
+def _unit_exact(out):
+    """the theorem's conclusion checked on the model's exact output: an entry equal to 1 at the first index of largest
+    magnitude, nothing larger than 1"""
+    from fractions import Fraction
+
+    ns = [Fraction(z[0]) ** 2 + Fraction(z[1]) ** 2 for z in out]
+    m = max(ns)
+    k = ns.index(m)
+    return m == 1 and Fraction(out[k][0]) == 1 and Fraction(out[k][1]) == 0, k
+
+
+def _corr_normalisers(ctx, ssi, pl, fdd):
+    """the three unity normalisers through the real functions and through the model op `c08_normalise`
+    (PV.normalise / Plscf.phiCell / Fdd.normalise): same un-normalised vector, same index picked (first of largest
+    magnitude, exact ties included), normalised vector equal to rounding, NaN pattern equal."""
+    import scipy.linalg
+
+    from c01 import record
+
+    rng = ctx.rng
+    g = ctx.nprng()
+
+    def tie_vector(n):
+        a = 2.0 ** rng.randint(-3, 3)
+        units = [a, -a, 1j * a, -1j * a]
+        v = np.array([rng.choice(units) * rng.choice([1.0, 0.5, 0.25]) for _ in range(n)], complex)
+        i, j = rng.sample(range(n), 2)
+        v[i], v[j] = rng.choice(units), rng.choice(units)  # at least two components of the largest magnitude
+        return v
+
+    for it in range(ctx.n(24, 240)):
+        kind = ["ssi", "plscf", "fdd"][it % 3]
+        mode = ["generic", "tie", "zero"][(it // 3) % 3]
+        n = rng.randint(2, 6)
+        if kind == "ssi":
+            if mode == "zero":
+                continue  # 0/0: numpy gives NaN, the rational model 0 - excluded by the hypothesis of C08_unity_ssi
+            k = rng.randint(1, 4)
+            if mode == "generic":
+                A = g.standard_normal((k, k)) * 0.5
+                C = g.standard_normal((n, k))
+            else:  # exact eigenvectors e_j: the un-normalised shapes are the columns of C
+                A = np.diag(rng.sample([0.9, 0.5, -0.7, 0.3, 0.8], k))
+                C = np.array([tie_vector(n).real + tie_vector(n).imag for _ in range(k)]).T
+                C[C == 0] = 1.0
+            eigs = []
+            with record(scipy.linalg, "eig", eigs):
+                _fn, _xi, phi, *_ = ssi.ac2mp(A, C, 0.01)
+            rv = eigs[0][1][2]
+            raws, reals = list(np.dot(C, rv).T), list(np.asarray(phi))
+        elif kind == "plscf":
+            k = rng.randint(1, 4)
+            if mode == "generic":
+                A = g.standard_normal((k, k)) * 0.5
+                C = g.standard_normal((n, k))
+            elif mode == "tie":
+                A = np.diag(rng.sample([0.9, 0.5, 0.7, 0.3, 0.8], k))
+                C = np.array([tie_vector(n).real + tie_vector(n).imag for _ in range(k)]).T
+                C[C == 0] = 1.0
+            else:
+                A = np.diag(rng.sample([0.9, 0.5, 0.7, 0.3, 0.8], k))
+                C = np.zeros((n, k))
+            eigs = []
+            with record(np.linalg, "eig", eigs), np.errstate(all="ignore"):
+                _fn, _xi, phi, lam_c = pl.ac2mp_poly(A, C, 0.01, "per", 128)
+            lam_d, V = eigs[0][1]
+            lambd = np.log(lam_d) * (1 / 0.01)
+            keep = [ii for ii in range(len(lam_d)) if np.isfinite(lambd[ii]) and not lambd[ii].real > 0]  # not blanked (C05's stream covers blanking)
+            raws = [np.dot(C, V)[:, ii] for ii in keep]
+            reals = [np.asarray(phi)[ii] for ii in keep]
+        else:
+            nf = rng.randint(8, 20)
+            freq = np.arange(nf) * 0.5
+            Sval = np.zeros((n, n, nf))
+            for q in range(nf):
+                Sval[np.arange(n), np.arange(n), q] = np.sort(g.uniform(0.5, 5.0, n))[::-1]
+            Svec = g.standard_normal((n, n, nf)) + 1j * g.standard_normal((n, n, nf))
+            if mode == "tie":
+                for q in range(nf):
+                    Svec[0, :, q] = tie_vector(n)
+            elif mode == "zero":
+                Svec[0, :, :] = 0
+            sel = [float(freq[rng.randint(3, nf - 4)]) + 0.1]
+            with np.errstate(all="ignore"):
+                Fn, Phi = fdd.FDD_mpe(Sval, Svec, freq, sel, DF=1.2)
+            idx = int(np.argmin(np.abs(freq - Fn[0])))
+            raws, reals = [Svec[0, :, idx]], [np.asarray(Phi)[:, 0]]
+        for raw, real in zip(raws, reals):
+            a = np.sort(np.abs(raw))
+            if mode == "generic" and len(a) > 1 and a[-1] - a[-2] <= 1e-9 * a[-1]:
+                ctx.count("normaliser_near_tie_skipped")
+                continue
+            mm = ctx.model("c08_normalise", kind=kind, v=[Cx(z) for z in raw])
+            k_real = int(np.argmax(np.abs(raw)))
+            if mm["out"] is None:
+                ok = bool(np.all(np.isnan(real))) and not np.any(raw)
+            else:
+                out = np.array([cfl(z) for z in mm["out"]])
+                unit, k_out = _unit_exact(mm["out"])
+                ok = mm["k"] == k_real and unit and k_out == mm["k"] and max_rel_err(out, real) <= 1e-12
+                # the real code's result has the property itself (to rounding)
+                ok = ok and abs(real[k_real] - 1) <= 1e-12 and np.abs(real).max() <= 1 + 1e-12
+            ctx.corr(f"unity[{kind}]", bool(ok), {"kind": kind, "mode": mode, "v": [str(z) for z in raw]}, mm, [str(z) for z in real], (kind, mode))
+            ctx.count(f"unity_{kind}_{mode}")
+
+
 def correspondence(ctx):
-    """C08 adds no code of its own: the model functions it speaks about are tied by the correspondences of C01, C03, C12 (and
-    C05/C06/C13 for the spectral classes). Here the modal map used in the time-unit theorem is compared with ssi.ac2mp."""
-    from pyoma2.functions import ssi
+    """C08's own ties (the other model functions its theorems speak about are tied by C01, C03, C05, C06, C07, C12, C13):
+    * the time-unit map: `ssi.ac2mp(A, C, dt)` and `ssi.ac2mp(A, C, dt/k)` each against the model `ac2mpSsi` (driver op
+      `c08_ac2mp`), which contains the `log(lam_d) * (1/dt)` step `C08_time_unit_ac2mp` speaks about; then the two MODEL
+      outputs are related as the theorem says (fn, lam times k; xi, phi equal) - exactly, in rationals, when k is a power
+      of two;
+    * the three unity normalisers (`ssi.ac2mp`, `plscf.ac2mp_poly`, `fdd.FDD_mpe`) against `c08_normalise`;
+    * (kept) the code-vs-code relation of `ssi.ac2mp` under dt -> dt/k."""
+    from fractions import Fraction
+
+    from pyoma2.functions import fdd, plscf, ssi
 
     g = ctx.nprng()
-    for _ in range(ctx.n(20, 300)):
+    for it in range(ctx.n(20, 300)):
         n = ctx.rng.randint(2, 6)
         A = g.standard_normal((n, n)) * 0.5
         C = g.standard_normal((3, n))
         dt = 10 ** ctx.rng.uniform(-3, 0)
-        k = 10 ** ctx.rng.uniform(-2, 2)
+        k = 10 ** ctx.rng.uniform(-2, 2) if it % 2 else 2.0 ** ctx.rng.randint(-6, 6)
         fn1, xi1, phi1, *_ = ssi.ac2mp(A, C, dt)
         fn2, xi2, phi2, *_ = ssi.ac2mp(A, C, dt / k)
         ok = np.allclose(fn2, fn1 * k, rtol=1e-10, equal_nan=True) and np.allclose(xi2, xi1, rtol=1e-9, atol=1e-12, equal_nan=True) and np.allclose(phi1, phi2, equal_nan=True)
         ctx.corr("ssi.ac2mp[time unit]", bool(ok), {"A": A.tolist(), "dt": dt, "k": k}, None, None, ("ac2mp", n))
+        m1 = _corr_ac2mp_model(ctx, ssi, A, C, dt, "ssi.ac2mp[model, dt]", ("ac2mp-model", n))
+        m2 = _corr_ac2mp_model(ctx, ssi, A, C, dt / k, "ssi.ac2mp[model, dt/k]", ("ac2mp-model-k", n))
+        if m1 is not None and m2 is not None:
+            # the theorem's relation between the two model outputs: shapes identical (exactly: same C, same recorded vectors)
+            okm = m1["phi"] == m2["phi"]
+            if it % 2 == 0 and 1 / (dt / k) == k * (1 / dt):  # power-of-two k: the recorded inputs are related exactly
+                kk = Fraction(k)
+                okm = okm and [[Fraction(z[0]) * kk, Fraction(z[1]) * kk] for z in m1["lam"]] == [[Fraction(z[0]), Fraction(z[1])] for z in m2["lam"]]
+                ctx.count("time_unit_model_exact")
+            okm = okm and max_rel_err([fl(v) for v in m2["fn"]], [k * fl(v) for v in m1["fn"]]) <= 1e-12
+            okm = okm and max_rel_err([fl(v) for v in m2["xi"]], [fl(v) for v in m1["xi"]]) <= 1e-11
+            ctx.corr("ac2mpSsi[time unit, model vs model]", bool(okm), {"A": A.tolist(), "dt": dt, "k": k}, None, None, ("ac2mp-mm", n))
+    _corr_normalisers(ctx, ssi, plscf, fdd)
 
 
 def replay(rec):
